@@ -38,6 +38,9 @@ func houdiniCandidates(fn *ssa.Function) map[int][]*Clause {
 				out[li.Ordinal] = append(out[li.Ordinal], &Clause{Text: p.Comment + " >= 0 (auto)", Expr: &SBinary{">=", &SIdent{p.Comment}, &SLit{big.NewInt(0)}}})
 			case isSlice && isIdent(p.Comment):
 				slices = append(slices, p.Comment)
+				// ownership: the slice lives in memory allocated by this call (or is empty)
+				fe := &SBinary{"||", &SCall{Fun: &SIdent{"fresh"}, Args: []SExpr{&SIdent{p.Comment}}}, &SBinary{"==", &SCall{Fun: &SIdent{"cap"}, Args: []SExpr{&SIdent{p.Comment}}}, &SLit{big.NewInt(0)}}}
+				out[li.Ordinal] = append(out[li.Ordinal], &Clause{Text: fmt.Sprintf("fresh(%s) || cap(%s) == 0 (auto)", p.Comment, p.Comment), Expr: fe})
 			}
 		}
 		// slice-typed parameters are loop-invariant candidates for upper bounds
